@@ -308,8 +308,16 @@ def check(tier: str, seed: int, t0: float, build: core.BuildStatus) -> int:
                 c = semrun.translate(be, src, md, model)
                 oc.evaluations += 1
                 hist[f"optional-form:{c.status}"] += 1
+                if c.status == "refused":
+                    continue   # C09's subject
                 if c.status != "ok":
-                    continue   # refused (C09's subject) or outside the IR
+                    # accepted, but the emitted code is outside the C++ subset the executor understands: what the job computes
+                    # for this form is not shown
+                    oc.violations.append(core.Violation(key="c01:unparsed", what=f"{be}: {src}: accepted, and the emitted code is outside the IR grammar ({c.note})",
+                                                        no_failing_input=True,
+                                                        replay={"broken": f"optional form accepted with code outside the IR grammar: {c.note}", "backend": be, "query": src,
+                                                                "searched": "the form could not be executed"}))
+                    continue
                 evs = [qgen.gen_event(rng, uni, [(cs[0], "b1"), (cs[1], "b1")], sizes=[0, 1, 2, 3, 4]) for _ in range(12)]
                 diffs, unsup = semrun.differential(model, c, uni, evs)
                 if diffs:
